@@ -94,6 +94,55 @@ theorem C13_vec_end_sticky (score : Nat) (prog : List Op)
     implRun Vec.ds (Vec.init [] score) prog = specRun ⟨[], none⟩ prog :=
   (C13_end_sticky Vec.ds Vec.V _ C13_vec_lawful prog _ ⟨rfl, Sorted.nil⟩ hlegal).1
 
+/-! ## deviations of the real code, mirrored by the model (each reproduced by the harness
+against the real code and recorded in KNOWN_FINDINGS.txt)
+
+Full statements that are therefore FALSE for the buffered union / dense intersection models:
+  `Lawful (BUnion.ds C H) …` including "after `count` the state is valid for `[]`" and
+  "`score` at `d` does not depend on how `d` was reached";  the proved parts are the generic
+  theorems above, which apply to every implementation that does satisfy the contract. -/
+
+/-- S4: `fill_buffer` drains the window without clearing the drained slots' combiners; after the
+next refill the stale sums are added to (HORIZON = 64 instance: one child, every doc scores 2;
+`fill_buffer`, `advance` → doc 65 scores 4, whereas `seek 65` on a fresh scorer scores 2). -/
+theorem C13_union_fill_buffer_stale_scores_counterexample :
+    let D := BUnion.ds Vec.ds 64
+    let s0 := BUnion.build Vec.ds 64 true [Vec.init (List.range 130) 2]
+    let s2 := D.advance (D.fillBuffer s0).2
+    D.doc s2 = 65 ∧ (D.score s2).1 = 4 ∧ D.doc (D.seek 65 s0) = 65 ∧ (D.score (D.seek 65 s0)).1 = 2 := by
+  decide +kernel
+
+/-- `fill_buffer` moves the cursor without refreshing `self.score` -/
+theorem C13_union_fill_buffer_score_not_refreshed_counterexample :
+    let D := BUnion.ds Vec.ds 128
+    let s0 := BUnion.build Vec.ds 128 true [Vec.init (List.range 66) 1, Vec.init [64] 4]
+    (D.score (D.fillBuffer s0).2).1 = 1 ∧ D.doc (D.fillBuffer s0).2 = 64
+      ∧ D.doc (D.seek 64 s0) = 64 ∧ (D.score (D.seek 64 s0)).1 = 5 := by
+  decide +kernel
+
+/-- `count_including_deleted` of the buffered union returns the right number but leaves `doc()` -/
+theorem C13_union_count_end_counterexample :
+    let D := BUnion.ds Vec.ds 64
+    let s0 := BUnion.build Vec.ds 64 false [Vec.init [1, 5, 900] 1, Vec.init [5, 7] 1]
+    (D.count s0).1 = 4 ∧ D.doc (D.count s0).2 = 900 ∧ D.doc (D.advance (D.count s0).2) = TERMINATED := by
+  decide +kernel
+
+/-- the dense `count_including_deleted` of the intersection stops with `doc() = left.doc()` -/
+theorem C13_intersection_dense_count_end_counterexample :
+    let D := Inter.ds Vec.ds
+    let s0 := Inter.new Vec.ds true (Vec.init [1, 2000] 1) (Vec.init [1] 1) []
+    (D.count s0).1 = 1 ∧ D.doc (D.count s0).2 = 2000 := by
+  decide +kernel
+
+/-- a buffered union asked `seek_danger t` with `t` below its window start answers from its
+children only: the bound overshoots its own buffered documents (HORIZON = 64 instance: buffered
+{500, 510}, child at 2000; `seek_danger 460` = SeekLowerBound 2000 although 500 is a member). -/
+theorem C13_union_seek_danger_below_window_counterexample :
+    let D := BUnion.ds Vec.ds 64
+    let s0 := D.advance (BUnion.build Vec.ds 64 false [Vec.init [10, 500, 510] 1, Vec.init [2000] 1])
+    D.doc s0 = 500 ∧ (D.seekDanger 460 s0).1 = .lower 2000 := by
+  decide +kernel
+
 /-! ## non-vacuity -/
 
 example : Sorted [1, 5, 9] := by
